@@ -88,11 +88,25 @@ pub struct TB<V> {
     /// custom listener eventfds per thread (to be drained when dispatched)
     pub listeners: Mutex<Vec<(usize, Arc<EventFd>)>>,
     pub backends: Mutex<Vec<Backend>>,
+    /// optional gate that blocks the `acked_features` callback ("inside the handler"): (entered, released)
+    pub gate: Mutex<Option<Arc<(Mutex<(bool, bool)>, Condvar)>>>,
     _v: PhantomData<fn() -> V>,
 }
 
 impl<V> TB<V> {
-    fn new(cfg: Cfg, log: Arc<Log>) -> Self {
+    fn block_if_gated(&self) {
+        let gate = self.gate.lock().unwrap().clone();
+        if let Some(g) = gate {
+            let (m, cv) = &*g;
+            let mut st = m.lock().unwrap();
+            st.0 = true;
+            cv.notify_all();
+            while !st.1 {
+                st = cv.wait(st).unwrap();
+            }
+        }
+    }
+    pub fn new(cfg: Cfg, log: Arc<Log>) -> Self {
         TB {
             cfg,
             log,
@@ -101,6 +115,7 @@ impl<V> TB<V> {
             script: Mutex::new(Script::default()),
             listeners: Mutex::new(Vec::new()),
             backends: Mutex::new(Vec::new()),
+            gate: Mutex::new(None),
             _v: PhantomData,
         }
     }
@@ -121,10 +136,12 @@ impl<V: VringT<GM> + Send + Sync + 'static> VhostUserBackend for TB<V> {
         self.cfg.maxq
     }
     fn features(&self) -> u64 {
+        self.block_if_gated();
         self.cfg.features
     }
     fn acked_features(&self, features: u64) {
         self.log.push(json!({"ev": "cb", "cb": "acked_features", "v": limbs(features)}));
+        self.block_if_gated();
     }
     fn protocol_features(&self) -> VhostUserProtocolFeatures {
         VhostUserProtocolFeatures::from_bits_truncate(self.cfg.pf)
@@ -539,7 +556,9 @@ pub fn run(cases: &[Value], trace: &mut Trace, seed: u64) {
     for (k, case) in cases.iter().enumerate() {
         let mut rng = Rng::new(seed ^ (k as u64).wrapping_mul(0x51ed_27));
         let watch_threads = thread_count();
-        if case["conc"].as_bool() == Some(true) {
+        if case.get("shutdown").is_some() {
+            crate::daemon_shut::run_case(case, trace);
+        } else if case["conc"].as_bool() == Some(true) {
             if case["vring"].as_str() == Some("mutex") {
                 crate::daemon_conc::run_case::<VringMutex<GM>>(case, trace);
             } else {
